@@ -1249,6 +1249,35 @@ fn wake_send_waiters<T>(waiters: &mut LinkedList<SendWaitQueueEntry<T>>) {''',
         g.reset();
     }''',
      'expect': {'C14': ['C14.W']}},
+    # ---------------------------------------------------------------- must-rules (converses)
+    {'name': 'mutex-guard-drop-conditional-unlock', 'file': 'src/sync/mutex.rs',
+     'old': '''        let waker = { self.mutex.state.lock().unlock() };''',
+     'new': '''        let waker = { let mut s = self.mutex.state.lock(); if s.is_fair { s.unlock() } else { s.return_last_waiter() } };''',
+     'expect': {'C02': ['C02.R6']}},
+    {'name': 'mutex-fair-notified-never-locks', 'file': 'src/sync/mutex.rs',
+     'old': '''                if !self.is_locked {
+                    if self.is_fair {
+                        // In a fair Mutex, the WaitQueueEntry is kept in the
+                        // linked list and must be removed here
+                        // Safety: Due to the state, we know that the node must be part
+                        // of the waiter list
+                        self.force_remove_waiter(wait_node);
+                    }
+                    self.is_locked = true;''',
+     'new': '''                if !self.is_locked && !(self.is_fair && self.waiters.is_empty()) {
+                    if self.is_fair {
+                        self.force_remove_waiter(wait_node);
+                    }
+                    self.is_locked = true;''',
+     'expect': {'C03': ['C03.R6']}},
+    {'name': 'sem-notified-fitting-stays-pending', 'file': 'src/sync/semaphore.rs',
+     'old': '''                if self.permits >= wait_node.required_permits {
+                    if self.is_fair {
+                        // In a fair Semaphore, the WaitQueueEntry is kept in the''',
+     'new': '''                if self.permits > wait_node.required_permits {
+                    if self.is_fair {
+                        // In a fair Semaphore, the WaitQueueEntry is kept in the''',
+     'expect': {'C06': ['C06.R7']}},
 ]
 
 ALLP = ['C01','C02','C03','C04','C05','C06','C07','C08','C09','C10','C11','C12','C13','C14','C15','C17','C18','C19','C20']
